@@ -159,6 +159,56 @@ pub fn check_valid_market(ctx: &mut Ctx, m: &Market, shape: &str) -> Option<FXRa
             }
         }
     }
+    // the market is still complete and arbitrage-free after every quote has been re-marked through `update`
+    // (whatever base it was built with): quoted pairs exactly as re-quoted, crosses = path products
+    {
+        let mut m2 = m.clone();
+        let mut ups = vec![];
+        for (i, q) in m2.quotes.iter_mut().enumerate() {
+            let nv = q.val.value() * (1.0 + 0.25 * ((i % 3) as f64 + 1.0));
+            q.val = QuoteVal::F(nv);
+            ups.push(rateslib::fx::rates::FXRate::try_new(&m.ccys[q.lhs], &m.ccys[q.rhs], rateslib::dual::Number::F64(nv), q.settlement.map(crate::calmodel::to_ndt)).unwrap());
+        }
+        let mut fx2 = fx.clone();
+        ctx.eval(1);
+        ctx.class(&format!("after-update:base-{}", if m.base.is_some() { "given" } else { "none" }));
+        match guarded(|| fx2.update(ups).is_ok()) {
+            Caught::Ok(true) => {}
+            Caught::Ok(false) => {
+                ctx.violation("C09|after-update|update-of-quoted-pairs-refused", json!({"market": m.describe()}));
+                return None;
+            }
+            Caught::Panic { loc, msg } => {
+                if is_harness_location(&loc) {
+                    ctx.harness_error(format!("{} {}", loc, msg));
+                } else {
+                    ctx.violation(&format!("C09|after-update|panic|{}", short_loc(&loc)), json!({"market": m.describe(), "message": msg}));
+                }
+                return None;
+            }
+        }
+        let _ = rateslib::verif::fx_take_trace();
+        for a in 0..n {
+            for b in 0..n {
+                ctx.asserted(1);
+                let got = fx2.rate(&ccys[a], &ccys[b]).map(|x| num_value(&x));
+                let want = if a == b { Some(1.0) } else { m2.cross(a, b).map(|(w, _)| w) };
+                let quoted = m2.quotes.iter().find(|q| q.lhs == a && q.rhs == b).map(|q| q.val.value());
+                let ok = match (got, want, quoted) {
+                    (Some(g), _, Some(qv)) => g.to_bits() == qv.to_bits(),
+                    (Some(g), Some(w), None) => ulp_diff(g, w) <= 4 * 14,
+                    _ => false,
+                };
+                if !ok {
+                    ctx.violation(
+                        &format!("C09|after-update|{}", if quoted.is_some() { "quoted-pair-not-exact" } else { "cross-off-path-product" }),
+                        json!({"market_before": m.describe(), "market_after_update": m2.describe(), "pair": format!("{}{}", m.ccys[a], m.ccys[b]), "observed": got, "expected": quoted.or(want)}),
+                    );
+                    return None;
+                }
+            }
+        }
+    }
     let (diam, maxdeg) = m.diameter_and_maxdeg();
     ctx.class(&format!("tree:n={}", n));
     ctx.class(&format!("tree:diameter={}:maxdeg={}", diam.min(6), maxdeg.min(6)));
@@ -311,13 +361,15 @@ impl Prop for C09 {
             v.push(format!("invalid:{}", s));
         }
         let _ = tier;
+        v.push("after-update:base-given".to_string());
+        v.push("after-update:base-none".to_string());
         v
     }
     fn min_evaluations(&self, tier: Tier) -> u64 {
         tier.pick(100_000, 5_000_000)
     }
     fn rule(&self) -> String {
-        "Enumeration: every labelled tree on n<=4 currencies (quick; thorough also n=5) x every orientation of every quoted pair x every ordering of the quote list x every base choice (none or each currency); rates seeded log-uniform in [1e-4,1e4], some quotes given as Dual/Dual2 with own variables. Sampling: random trees n=2..12 (chains, stars, caterpillars, brooms, Pruefer). For each: all n^2 rates present, quoted pairs bit-exact, diagonal 1, r*r^-1 within 8 ulp, every cross within (pathlen+2)*4 ulp of the BFS path product. Invalid sets derived from valid ones (forest, unquoted base, chord, duplicate / inverse pair, right-count non-trees, inconsistent settlement, empty) must be Err. distinct_nontrivial = distinct triangulation traces (sequence of nodes sampled by the real algorithm, from the verif hook) - i.e. how many different paths through the solver the workload drove.".into()
+        "Enumeration: every labelled tree on n<=4 currencies (quick; thorough also n=5) x every orientation of every quoted pair x every ordering of the quote list x every base choice (none or each currency); rates seeded log-uniform in [1e-4,1e4], some quotes given as Dual/Dual2 with own variables. Sampling: random trees n=2..12 (chains, stars, caterpillars, brooms, Pruefer). For each: all n^2 rates present, quoted pairs bit-exact, diagonal 1, r*r^-1 within 8 ulp, every cross within (pathlen+2)*4 ulp of the BFS path product. Invalid sets derived from valid ones (forest, unquoted base, chord, duplicate / inverse pair, right-count non-trees, inconsistent settlement, empty) must be Err. Every valid market is re-checked after all its quotes have been re-marked through update (quoted pairs exact, crosses = path products). distinct_nontrivial = distinct triangulation traces (sequence of nodes sampled by the real algorithm, from the verif hook) - i.e. how many different paths through the solver the workload drove.".into()
     }
     fn assumptions(&self) -> Vec<String> {
         vec!["validity oracle: union-find - the quote multigraph is a spanning tree of all currencies (incl. the base) and settlement dates agree".into(), "the trace hook is used only as coverage evidence, never for a verdict".into()]
